@@ -282,10 +282,16 @@ inline std::unique_ptr<HeapBuf> fsr_bytes(const Op & o, const DType & dt) {
     return hb;
 }
 
+extern "C" {
+#include "jls/log.h"
+}
+inline void verif_log_cbk(const char * msg) { fputs(msg, stderr); }
+inline void verif_log_init() { static bool done = false; if (!done) { done = true; if (getenv("VERIF_JLSLOG")) jls_log_register(verif_log_cbk); } }
+
 struct Writer {   // thin sync/threaded dispatch
     struct jls_wr_s * wr = nullptr;
     struct jls_twr_s * twr = nullptr;
-    int32_t open(const std::string & via, const char * path) { return via == "twr" ? jls_twr_open(&twr, path) : jls_wr_open(&wr, path); }
+    int32_t open(const std::string & via, const char * path) { verif_log_init(); return via == "twr" ? jls_twr_open(&twr, path) : jls_wr_open(&wr, path); }
     int32_t close() { int32_t rc = twr ? jls_twr_close(twr) : jls_wr_close(wr); twr = nullptr; wr = nullptr; return rc; }
     bool is_open() const { return wr || twr; }
 };
@@ -331,11 +337,11 @@ inline int32_t exec_op(Writer & w, const Op & o, const Model & m) {
         HeapBuf hb(b.size());
         if (!b.empty()) memcpy(hb.p, b.data(), b.size());
         if (o.op == "anno") {
-            uint32_t dsz = str ? (w.twr ? (uint32_t) b.size() : 0) : sz;   // twr needs the size to copy the string; sync ignores it for strings
+            uint32_t dsz = str ? 0 : sz;   // documented: data_size is 0 / ignored for string and json storage (sync and threaded writer)
             return w.twr ? jls_twr_annotation(w.twr, (uint16_t) o.sig, o.ts, o.y, (enum jls_annotation_type_e) o.atype, (uint8_t) o.group, (enum jls_storage_type_e) o.stor, hb.p, dsz)
                          : jls_wr_annotation(w.wr, (uint16_t) o.sig, o.ts, o.y, (enum jls_annotation_type_e) o.atype, (uint8_t) o.group, (enum jls_storage_type_e) o.stor, hb.p, dsz);
         }
-        uint32_t dsz = str ? (w.twr ? (uint32_t) b.size() : 0) : sz;
+        uint32_t dsz = str ? 0 : sz;
         return w.twr ? jls_twr_user_data(w.twr, (uint16_t) o.meta, (enum jls_storage_type_e) o.stor, b.empty() ? nullptr : hb.p, dsz)
                      : jls_wr_user_data(w.wr, (uint16_t) o.meta, (enum jls_storage_type_e) o.stor, b.empty() ? nullptr : hb.p, dsz);
     }
@@ -391,12 +397,6 @@ inline ExecResult run_program(const Program & p, const char * path, Model & m, b
 
 // ---------------------------------------------------------------------------------------------
 // Reader-side observation helpers
-extern "C" {
-#include "jls/log.h"
-}
-inline void verif_log_cbk(const char * msg) { fputs(msg, stderr); }
-inline void verif_log_init() { static bool done = false; if (!done) { done = true; if (getenv("VERIF_JLSLOG")) jls_log_register(verif_log_cbk); } }
-
 struct Reader {
     struct jls_rd_s * rd = nullptr;
     int32_t open(const char * path) { verif_log_init(); return jls_rd_open(&rd, path); }
